@@ -391,7 +391,7 @@ def _chdiff(A, B):
 
 CLAUSES = [
     Clause("switch", check, gen=lambda t: cases(t),
-           budget={"quick": (16, 250), "thorough": (16, 6000)},
+           budget={"quick": (16, 250), "thorough": (16, 4000)},
            doc="switch_device strict/non-strict and switch_register"),
     Clause("switch_retarget", check, gen=lambda t: cases(t, profile_retarget),
            budget={"quick": (8, 150), "thorough": (16, 3000)},
